@@ -1,0 +1,59 @@
+//go:build verif
+
+// Harness-fed replacement of the netlink link monitor (build tag "verif").
+package ifmon
+
+import (
+	"context"
+	"net"
+	"sync"
+)
+
+var (
+	mu   sync.Mutex
+	subs = map[string][]chan bool{}
+)
+
+// VerifLinkUp reports a link-up event to every monitor of the named interface.
+func VerifLinkUp(name string) int {
+	mu.Lock()
+	defer mu.Unlock()
+	n := 0
+	for _, c := range subs[name] {
+		select {
+		case c <- true:
+			n++
+		default:
+		}
+	}
+	return n
+}
+
+func MonitorChanges(ctx context.Context, iface *net.Interface, event chan<- bool) error {
+	c := make(chan bool, 16)
+	mu.Lock()
+	subs[iface.Name] = append(subs[iface.Name], c)
+	mu.Unlock()
+	defer func() {
+		mu.Lock()
+		defer mu.Unlock()
+		l := subs[iface.Name]
+		for i := range l {
+			if l[i] == c {
+				subs[iface.Name] = append(l[:i:i], l[i+1:]...)
+				break
+			}
+		}
+	}()
+	for {
+		select {
+		case <-c:
+			if ctx.Err() != nil {
+				return nil
+			}
+			event <- true
+		case <-ctx.Done():
+			return nil
+		}
+	}
+}
